@@ -289,9 +289,17 @@ def gen_cases(ctx):
         add("order", "concat %s %s" % (X(a), X(rng.choice(words))))
         add("order", "eq %s %s" % (X(a), X(a)))
     # (iii) rep / reverse / case mapping
-    for s in [b"", b"a", b"ab", b"abcd", b"\x00\xff"]:
+    for s in [b"", b"a", b"ab", b"abc", b"abcd", b"abcde", b"\x00\xff"]:
         for n in [-1, 0, 1, 2, 3, 7, MININT]:
             add("rep", "rep %s %d" % (X(s), n))
+        # sizes around the usize limit: n * #s = 2^64 - 1 exactly, one below / above, and far above
+        if len(s) > 0:
+            for tot in (2**64 - 1, 2**64, 2**64 + len(s), 2**65 + 4):
+                n = tot // len(s)
+                if n <= MAXINT:
+                    for d in (-1, 0, 1):
+                        if 1 < n + d <= MAXINT and not (2**32 < (n + d) * len(s) < 2**63):
+                            add("rep", "rep %s %d" % (X(s), n + d))
             for sep in [b"", b",", b"--"]:
                 add("rep", "repsep %s %d %s" % (X(s), n, X(sep)))
     allb = bytes(range(256))
@@ -454,6 +462,15 @@ def cls_rep_overflow(a, lua, nel):
     return n > 1 and n * part >= 2**64
 
 
+def cls_create_max(a, lua, nel):
+    """string.create(2^64-1): size + 1 wraps to 0"""
+    if a[0] not in ("rep", "repsep") or not (nel.startswith("!sig") or nel == "!exit77") or nel == "!sig6":
+        return False
+    n = int(a[2])
+    part = len(unx(a[1])) + (len(unx(a[3])) if a[0] == "repsep" else 0)
+    return n > 1 and n * part - (len(unx(a[3])) if a[0] == "repsep" else 0) == 2**64 - 1
+
+
 def cls_fmod_trap(a, lua, nel):
     return a[0] == "fmod" and nel in ("!sig8", "!exit77") and int(a[2]) in (0, -1)
 
@@ -521,6 +538,7 @@ KNOWN_CLASSES = [
     ("gmatch x616263 x782a", cls_gmatch_lastmatch, False),
     ("gmatch x616161 x5e61", cls_gmatch_anchor, False),
     ("rep x61626364 4611686018427387905", cls_rep_overflow, False),
+    ("rep x616263 6148914691236517205", cls_create_max, False),
     ("fmod -9223372036854775808 -1", cls_fmod_trap, False),
     ("utf8char 4294967361", cls_utf8char_range, False),
     ("pack1 x3c6931 300", cls_pack_overflow, False),
